@@ -75,7 +75,7 @@ InputsCtl(st) ==
     (IF st.pc = "Down" THEN {[k |-> "conn"]} ELSE {[k |-> "cut"]})
     \cup {[k |-> "upd", p |-> 1] : x \in {q \in {1} : st.nupd < MaxUpd}}
     \cup (IF st.pc \in {"Down", "Dead"} THEN {} ELSE
-            {R(f, st, [ob |-> o]) : f \in {"select", "operate"}, o \in {"a", "b"}}
+            {R(f, st, [ob |-> o]) : f \in {"select", "operate"}, o \in {"a", "b", "a2"}}
             \cup {[R("operate", st, [ob |-> "a"]) EXCEPT !.seq = S16(@ + 1)]}
             \cup (IF st.select.has THEN {[R("operate", st, [ob |-> "a"]) EXCEPT !.seq = S16(st.select.seq + 1)]}
                   ELSE {})
